@@ -1,5 +1,5 @@
 (** C17 - Generator payloads are streamed lazily and size mismatches are caught. *)
-From IsoTp Require Import Base.Prelude Model.Layer Spec.ConfigSpec Spec.Segment Proofs.Inv Proofs.LocalP Proofs.TxP Proofs.Events.
+From IsoTp Require Import Base.Prelude Model.Layer Spec.ConfigSpec Spec.Segment Proofs.Inv Proofs.LocalP Proofs.TxP Proofs.Events Proofs.LazyP.
 
 (** One consume() pulls at most the requested number of values; a transmit pass calls it at most
     once, for at most one frame worth of payload (tx_data_length bytes). *)
@@ -30,6 +30,28 @@ Theorem C17_short_at_start : forall c s r allowed s' evs out,
   out = None /\ exists e, evs = EErr BadGenerator :: e /\ forallb done_only e = true.
 Proof. intros c s r allowed s' evs out H. exact (start_request_short_generator c s r allowed (or_intror I) s' evs out H). Qed.
 
+(** Laziness, pass level: while the sender has to wait - the separation time has not elapsed, or the
+    rate limiter does not allow the next frame - a pass pulls nothing from the generator and leaves the
+    state exactly as it was; *)
+Theorem C17_waiting_pass_pulls_nothing : forall c a s evs rbs r,
+  remote_bs s = Some rbs -> active s = Some r ->
+  timer_timed_out (now s) (timer_tx_stmin s) = false \/
+  a < Z.min (p_tx_dl (c_p c) - 1 - zlen (c_tx_prefix c)) (r_remaining r) ->
+  tx_cf c a s evs = mk_tr s evs None false.
+Proof. exact cf_waits_no_pull. Qed.
+
+(** ... and a pass that emits a Consecutive Frame pulled exactly the bytes that frame carries (at most
+    one frame worth), once. *)
+Theorem C17_cf_pulls_what_it_sends : forall c a s evs rbs r m,
+  remote_bs s = Some rbs -> active s = Some r -> tr_msg (tx_cf c a s evs) = Some m ->
+  exists payload r',
+    consume (Z.min (p_tx_dl (c_p c) - 1 - zlen (c_tx_prefix c)) (r_remaining r)) false r = (Some payload, r') /\
+    r_consumed r' = r_consumed r + zlen payload /\ 1 <= zlen payload <= p_tx_dl (c_p c) - 1 - zlen (c_tx_prefix c) /\
+    make_tx_msg c (c_tx_id c Physical) (c_tx_prefix c ++ [Z.lor 0x20 (tx_seqnum s)] ++ payload) = Some m.
+Proof. exact cf_pulls_what_it_sends. Qed.
+
 Print Assumptions C17_pull_bound.
 Print Assumptions C17_first_frame_pulls.
 Print Assumptions C17_short_at_start.
+Print Assumptions C17_waiting_pass_pulls_nothing.
+Print Assumptions C17_cf_pulls_what_it_sends.
